@@ -446,7 +446,7 @@ class ChunkRelativeFrames(Case):
     """chunk_relative_frames: the frame of the first CDS base kept on the chunk continues the chromosome reading
     frame (start offset minus the number of CDS bases cut at the 5' end, modulo 3); the remaining entries are the
     uninterrupted frames of the chunk-relative location (construct_frames_from_location, proved above)."""
-    props = ("C07", "C05")
+    props = ("C07", "C05", "C11")  # the phase column of chunk-relative GFF rows
     func = CDS + ".chunk_relative_frames"
 
     def __init__(self, n, stranded=False):
